@@ -211,6 +211,20 @@ impl Check for C09Check {
                 let at = g.w.below(clauses.len() + 1);
                 clauses.insert(at, vec![block]);
             }
+            if g.w.chance(1, 4) {
+                // an interleaving clause that diverges silently (a chain of suspensions with no
+                // disjunction in it): the first answers must still arrive
+                let stall = G::Leaf(Leaf {
+                    id: 702,
+                    target: T::V(0),
+                    answers: vec![],
+                    shape: Shape::Chain,
+                    tail: Tail::Stall,
+                    end_latency: 0,
+                });
+                let at = g.w.below(clauses.len() + 1);
+                clauses.insert(at, vec![stall]);
+            }
             let body = vec![G::Conde(clauses)];
             (Program { nq: p.nq, defs: p.defs, body }, "infinite-producer")
         } else if kind < 14 {
@@ -301,7 +315,7 @@ impl Check for C09Check {
                 if matches!(base.end, End::WorkCap) {
                     // no committed-choice operator in these programs: a quantum that eats the
                     // whole work budget is a search step that does not return
-                    if base.stats.quanta.saturating_mul(2_000) < base.stats.work {
+                    if base.stats.runaway_step || base.stats.quanta.saturating_mul(2_000) < base.stats.work {
                         return CaseResult {
                             verdict: Verdict::Violation {
                                 class: "lazy-prefix-not-delivered".into(),
